@@ -56,6 +56,9 @@ def cfg_step(tier, seed):
     out = [{'w': w, 'op': 'ptype:' + p} for w in PT[:3] for p in PT] + [{'w': w, 'op': c} for w in PT[:3] for c in CLASSES + ('Tilt(ptype=none-object)',)]
     out += [{'w': w, 'op': 'ptype:' + p, 'variant': v} for w in PT[:3] for p in PT for v in ('runtime-name', 'data-less')]
     out += [{'w': w, 'op': c, 'variant': 'data-less'} for w in PT[:3] for c in ('Pupil', 'Image')]
+    # the other documented ways of writing the product: the plane's multiply() hook called directly, and the in-place form
+    out += [{'w': w, 'op': 'ptype:' + p, 'form': f} for w in PT[:3] for p in PT for f in ('p.multiply(w)', 'w*=p')]
+    out += [{'w': w, 'op': c, 'form': 'p.multiply(w)'} for w in PT[:3] for c in ('Pupil', 'Image', 'Tilt', 'DispersiveTilt')]
     return out, len(out), True
 
 
@@ -107,8 +110,19 @@ def run_step(W, cfg):
     wb = {k: getattr(w, k) for k in wattrs}
     pb2 = {k: getattr(plane, k) for k in pattrs if hasattr(plane, k)}
     fb = [(f.offset, f.pixelscale, list(f.tilt)) for f in w.data]
+    form = cfg.get('form', 'w*p')
     try:
-        out = w * plane
+        if form == 'p.multiply(w)':
+            out = plane.multiply(w)
+        elif form == 'w*=p':
+            out = w
+            out *= plane
+            if want is not None:
+                w = _wave(W, lt, cfg['w'])          # the in-place form rebinds: nothing more to compare
+        elif form == 'p*w' and hasattr(type(plane), '__rmul__') or form == 'p*w' and hasattr(type(plane), '__mul__'):
+            out = plane * w
+        else:
+            out = w * plane
     except TypeError:
         W.ob_true('refused only where the table says Not allowed', want is None)
         W.ob_true('refusal leaves the wavefront unchanged', list(w.data) == before[0] and w.ptype == before[1] and w.shape == before[2]
